@@ -38,7 +38,7 @@ Fixpoint bb_process_runs (o : opts) (sizes : list (name * N)) (prev : option nam
       match lookup c sizes with
       | None => Err E_UNKNOWN_CHROM
       | Some len =>
-          (* a chromosome whose run reappears is refused (/repo 6b10d42) *)
+          (* a chromosome whose run reappears is refused (/repo 4ea85d7) *)
           match lookup c ids with
           | Some _ => Err E_CHROM_SPLIT
           | None =>
